@@ -81,8 +81,13 @@ CLAIMED = {
          "q is the cofactor eigenvector; rot[] is a proper rotation; sum_ij R_ij S_ji = q^T K q, which ties matrix layout, rotation convention and kernel argument order together; the SSE kernels (all four remainders of n mod 4, "
          "masked tail, horizontal-add epilogue) produce M[3i+j] = sum a_i b_j, apply x' = x R, and centre by the float64 mean. Also: parallel and serial branches are identical; superpose centres alignment and displaced atoms by the "
          "same float64 offset and restores the reference offset; cached traces are used only when valid; array roles at every kernel call site. Floating-point behaviour of the quartic solver is not decided.", _NOTE, "DESIGN.md §4 C06"),
+ "C10": ("guard and statement-order analysis of the two search kernels on the clang AST (facts in effect at each push_back, break after push_back, iterator loops, wrap statements), dominance of the primary-cell wrap over every use of the positions, FFI role agreement of the Cython wrappers",
+         "Decides that compute_neighbors walks the haystack in the given order, skips the self pair, wraps the difference vector (reduced box; c, b, a), tests |delta|^2 < cutoff^2 strictly and leaves the query loop after recording an atom (no duplicates); "
+         "that compute_neighborlist records a pair only for index < atomIndex within the squared cutoff and mirrors every recorded pair exactly once after the parallel search (symmetric, irreflexive, duplicate-free by construction); that under periodic "
+         "boundary conditions the cell list is built and searched on positions wrapped into the primary cell; and that the wrappers hand over positions and box of the same frame with every argument in its role. "
+         "Which voxels and x-ranges the cell list visits is arithmetic on run-time values and is not decided.", _NOTE, "DESIGN.md §4 C10"),
 }
 _PENDING = "check not built yet in this round (design in DESIGN.md §4); will be claimed when its rules run clean"
-NA = {k: _PENDING for k in ["C09","C10"]}
+NA = {k: _PENDING for k in ["C09"]}
 NA["C16"] = ("every clause is numerical equality of computed arrays with closed-form expressions; no structural "
              "necessary condition covers more than one of the fifteen functions (DESIGN.md §5)")
